@@ -232,7 +232,7 @@ Guard == 777
 Empty == <<>>
 Base(f, n, v) == [f |-> f, n |-> n, v |-> v, x |-> Empty, y |-> Empty, a |-> 0, ai |-> 0, si |-> 0, k |-> 0,
                   w |-> Empty, s |-> 0, iw |-> Empty, allow |-> Empty, e |-> 0, e32 |-> 0, tol |-> 0, alt |-> KEEP,
-                  incx |-> 1, incy |-> 1, b |-> FALSE, skip |-> FALSE]
+                  incx |-> 1, incy |-> 1, b |-> FALSE, skip |-> FALSE, opn |-> Empty, wk |-> Empty]
 W2(f, n, v, x, y, w)    == [Base(f, n, v) EXCEPT !.x = x, !.y = y, !.w = w]
 W2a(f, n, v, a, x, y, w) == [Base(f, n, v) EXCEPT !.x = x, !.y = y, !.a = a, !.w = w]
 S2(f, n, v, x, y, s)    == [Base(f, n, v) EXCEPT !.x = x, !.y = y, !.s = s]
@@ -629,8 +629,120 @@ PCase(f, n, v) ==
                              z == [p \in 1..n |-> <<m[2 * p - 1], m[2 * p]>>] IN
                          [B0 EXCEPT !.incx = ix, !.x = Flat(Lay(z, ix, CGuard)), !.s = Norm1S(m)]
 
+(********* complex slices whose COMPONENTS range over the extended integers *********)
+\* The Gaussian-integer families above (CFns) never meet an infinity or a NaN.  Here a complex
+\* value is a pair <<re, im>> of EXTENDED integers and the scalar-loop definitions are evaluated
+\* with the IEEE tables XAdd / XSub / XMul / XNeg of this module, component by component:
+\*   - Add, Sub, AddConst, CumSum, Sum, Real, Imag, Complex, ScaleReal (and BLAS zdscal / csscal)
+\*     are component-wise BY DEFINITION: (a+bi) + (c+di) = (a+c) + (b+d)i, f (a+bi) = fa + fb i.
+\*     An element with exactly one non-finite component keeps its other, finite, component.
+\*   - Scale, Mul, MulConj, AddScaled (BLAS zscal / zaxpy) contain a full complex product.  Its
+\*     scalar definition is the product of the Go language as the reference loops of gonum
+\*     (internal/asm/c128, c64: dst[i] = alpha * x[i] ...) evaluate it,
+\*           (a+bi)(c+di) = (ac - bd) + (ad + bc)i ,
+\*     every operation an IEEE operation (0 * Inf = NaN, Inf - Inf = NaN).  XMul and XAdd are
+\*     commutative, so the value does not depend on the order of the factors or of the two
+\*     partial products (ZMulComm in SliceAlias.tla).  Where this formula gives NaN in BOTH
+\*     components although a factor has an infinite component, a product with the recovery step
+\*     of C99 Annex G (which Go does not perform but would be a legitimate refinement) returns an
+\*     infinity instead: such elements are listed in "opn" and the harness accepts any result
+\*     there that is not finite in both components.
+\* The sign of a zero component is pinned where a component is copied or multiplied by a real
+\* scalar (Real, Imag, Complex, ScaleReal, zdscal) and for AddConst; elsewhere -0 = +0.
+ZAdd(a, b)     == <<XAdd(a[1], b[1]), XAdd(a[2], b[2])>>
+ZSub(a, b)     == <<XSub(a[1], b[1]), XSub(a[2], b[2])>>
+ZMul(a, b)     == <<XSub(XMul(a[1], b[1]), XMul(a[2], b[2])), XAdd(XMul(a[1], b[2]), XMul(a[2], b[1]))>>
+ZConj(a)       == <<a[1], XNeg(a[2])>>
+ZRScale(f, a)  == <<XMul(f, a[1]), XMul(f, a[2])>>
+ZIsInf(a)      == IsInf(a[1]) \/ IsInf(a[2])
+ZMulOpen(a, b) == LET p == ZMul(a, b) IN IsNaN(p[1]) /\ IsNaN(p[2]) /\ (ZIsInf(a) \/ ZIsInf(b))
+
+\* data: the Gaussian-integer vectors of the finite families with ONE element of x (and, in about
+\* half of the variants, one element of y) whose components are replaced by a pattern; KEEP leaves
+\* the formula value.  The first six patterns have exactly one non-finite component.
+ZPats  == << <<PInf, KEEP>>, <<KEEP, NaN>>, <<NInf, KEEP>>, <<KEEP, PInf>>, <<NaN, KEEP>>, <<KEEP, NInf>>,
+             <<PInf, PInf>>, <<NZero, KEEP>>, <<PInf, NInf>>, <<NaN, PInf>>, <<KEEP, NZero>>, <<NInf, NaN>>,
+             <<PInf, 0>>, <<PInf, NZero>>, <<NZero, NInf>>, <<NaN, NaN>>, <<0, NInf>>, <<NZero, NZero>> >>
+ZYPats == << <<KEEP, KEEP>>, <<KEEP, PInf>>, <<KEEP, KEEP>>, <<NaN, KEEP>>, <<KEEP, KEEP>>, <<NInf, KEEP>>,
+             <<KEEP, NZero>>, <<KEEP, KEEP>>, <<PInf, NInf>>, <<KEEP, KEEP>>, <<0, PInf>>, <<KEEP, NaN>>, <<KEEP, KEEP>> >>
+ZInj(z, pos, pat) == IF Len(z) = 0 THEN z
+                     ELSE [i \in 1..Len(z) |-> IF i # pos THEN z[i]
+                                               ELSE <<IF pat[1] = KEEP THEN z[i][1] ELSE pat[1],
+                                                      IF pat[2] = KEEP THEN z[i][2] ELSE pat[2]>>]
+ZX(n, v) == ZInj(CVec(n, 3, 1, v), PosX(n, v), Pick(ZPats, v + 5 * n + Seed))
+ZY(n, v) == ZInj(CVec(n, 5, 2, v), PosY(n, v), Pick(ZYPats, 3 * v + n + Seed))
+\* scalars: mostly finite; the strided BLAS forms return early for alpha = 0 (reference BLAS), so
+\* they get non-zero scalars only
+ZAlphaNZ(v)  == Pick(<< <<2, -1>>, <<0, 1>>, <<-1, 0>>, <<1, 2>>, <<1, 0>>, <<-2, 3>>, <<PInf, 0>>, <<2, NaN>>,
+                        <<NZero, 1>>, <<3, NInf>>, <<2, 0>> >>, v + Seed)
+ZAlpha(v)    == IF (v + Seed) % 13 = 11 THEN <<0, 0>> ELSE IF (v + Seed) % 13 = 12 THEN <<NZero, 0>> ELSE ZAlphaNZ(v)
+ZRAlphaNZ(v) == Pick(<<2, -1, 3, PInf, -2, 1, NaN, -3, NInf>>, v + Seed)
+ZOpn(P(_), n) == Asc({i \in 1..n : P(i)})
+
+ZFns == {"ZCAdd", "ZCAddTo", "ZCSub", "ZCSubTo", "ZCAddConst", "ZCScaleReal", "ZCScaleRealTo", "ZCReal", "ZCImag",
+         "ZCComplex", "ZCCumSum", "ZCSum", "ZCDscal",
+         "ZCScale", "ZCScaleTo", "ZCMul", "ZCMulTo", "ZCMulConj", "ZCMulConjTo", "ZCAddScaled", "ZCAddScaledTo",
+         "ZCScal", "ZCAxpy"}
+
+ZCase(f, n, v) ==
+  LET x == ZX(n, v)  y == ZY(n, v)  a == ZAlpha(v)  ra == Alpha(v)
+      one == <<1, 0>>  mone == <<-1, 0>>
+      B0 == Base(f, n, v)
+      XY == [B0 EXCEPT !.x = Flat(x), !.y = Flat(y)]
+      XA == [B0 EXCEPT !.x = Flat(x), !.a = a[1], !.ai = a[2]]
+      XYA == [B0 EXCEPT !.x = Flat(x), !.y = Flat(y), !.a = a[1], !.ai = a[2]]
+      XR == [B0 EXCEPT !.x = Flat(x), !.a = ra]
+      sc == [i \in 1..n |-> ZMul(a, x[i])]
+      ax == [i \in 1..n |-> ZAdd(y[i], ZMul(a, x[i]))]
+      mu == [i \in 1..n |-> ZMul(x[i], y[i])]
+      mc == [i \in 1..n |-> ZMul(x[i], ZConj(y[i]))]
+      rs == [i \in 1..n |-> ZRScale(ra, x[i])]
+      oa == ZOpn(LAMBDA i : ZMulOpen(a, x[i]), n)
+      om == ZOpn(LAMBDA i : ZMulOpen(x[i], y[i]), n)
+      oc == ZOpn(LAMBDA i : ZMulOpen(x[i], ZConj(y[i])), n)
+  IN
+  \* ---- component-wise by definition.  "wk" is NOT an accepted value: it is what the form
+  \* y + (+-1 + 0i) * x (a full complex product with a unit scalar) gives, printed so that this one
+  \* departure from the definition gets a signature of its own (see the harness, kind "axpyform")
+  CASE f = "ZCAdd"        -> [XY EXCEPT !.w = Flat(Map2(ZAdd, x, y)), !.wk = Flat([i \in 1..n |-> ZAdd(x[i], ZMul(one, y[i]))])]
+    [] f = "ZCAddTo"      -> [XY EXCEPT !.w = Flat(Map2(ZAdd, x, y)), !.wk = Flat([i \in 1..n |-> ZAdd(ZMul(one, x[i]), y[i])])]
+    [] f = "ZCSub"        -> [XY EXCEPT !.w = Flat(Map2(ZSub, x, y)), !.wk = Flat([i \in 1..n |-> ZAdd(x[i], ZMul(mone, y[i]))])]
+    [] f = "ZCSubTo"      -> [XY EXCEPT !.w = Flat(Map2(ZSub, x, y)), !.wk = Flat([i \in 1..n |-> ZAdd(x[i], ZMul(mone, y[i]))])]
+    [] f = "ZCAddConst"   -> [XA EXCEPT !.w = Flat([i \in 1..n |-> ZAdd(x[i], a)])]
+    [] f = "ZCScaleReal"  -> [XR EXCEPT !.w = Flat(rs)]
+    [] f = "ZCScaleRealTo" -> [XR EXCEPT !.w = Flat(rs)]
+    [] f = "ZCReal"       -> [B0 EXCEPT !.x = Flat(x), !.w = [i \in 1..n |-> x[i][1]]]
+    [] f = "ZCImag"       -> [B0 EXCEPT !.x = Flat(x), !.w = [i \in 1..n |-> x[i][2]]]
+    [] f = "ZCComplex"    -> LET re == XData(n, v)  im == YData(n, v) IN
+                             [B0 EXCEPT !.x = re, !.y = im, !.w = Flat([i \in 1..n |-> <<re[i], im[i]>>])]
+    [] f = "ZCCumSum"     -> [B0 EXCEPT !.x = Flat(x), !.w = IF n = 0 THEN Empty ELSE Flat(Scan(ZAdd, x))]
+    [] f = "ZCSum"        -> LET r == Fold(ZAdd, <<0, 0>>, x) IN [B0 EXCEPT !.x = Flat(x), !.s = r[1], !.si = r[2]]
+    [] f = "ZCDscal"      -> LET ix == AbsI(IncX(v))  fa == ZRAlphaNZ(v) IN
+                             [B0 EXCEPT !.a = fa, !.incx = ix, !.x = Flat(Lay(x, ix, CGuard)),
+                                !.w = Flat(Lay([i \in 1..n |-> ZRScale(fa, x[i])], ix, CGuard))]
+  \* ---- a full complex product inside
+    [] f = "ZCScale"      -> [XA EXCEPT !.w = Flat(sc), !.opn = oa]
+    [] f = "ZCScaleTo"    -> [XA EXCEPT !.w = Flat(sc), !.opn = oa]
+    [] f = "ZCMul"        -> [XY EXCEPT !.w = Flat(mu), !.opn = om]
+    [] f = "ZCMulTo"      -> [XY EXCEPT !.w = Flat(mu), !.opn = om]
+    [] f = "ZCMulConj"    -> [XY EXCEPT !.w = Flat(mc), !.opn = oc]
+    [] f = "ZCMulConjTo"  -> [XY EXCEPT !.w = Flat(mc), !.opn = oc]
+    [] f = "ZCAddScaled"  -> [XYA EXCEPT !.w = Flat(ax), !.opn = oa]
+    [] f = "ZCAddScaledTo" -> [XYA EXCEPT !.w = Flat(ax), !.opn = oa]
+  \* ---- strided; "opn" lists positions of the backing array
+    [] f = "ZCScal"       -> LET ix == AbsI(IncX(v))  b == ZAlphaNZ(v) IN
+                             [B0 EXCEPT !.a = b[1], !.ai = b[2], !.incx = ix, !.x = Flat(Lay(x, ix, CGuard)),
+                                !.w = Flat(Lay([i \in 1..n |-> ZMul(b, x[i])], ix, CGuard)),
+                                !.opn = Asc({VecIdx(i, n, ix) : i \in {j \in 1..n : ZMulOpen(b, x[j])}})]
+    [] f = "ZCAxpy"       -> LET ix == IncX(v)  iy == IncY(v)  b == ZAlphaNZ(v) IN
+                             [B0 EXCEPT !.a = b[1], !.ai = b[2], !.incx = ix, !.incy = iy,
+                                !.x = Flat(Lay(x, ix, CGuard)), !.y = Flat(Lay(y, iy, CGuard)),
+                                !.w = Flat(Lay([i \in 1..n |-> ZAdd(y[i], ZMul(b, x[i]))], iy, CGuard)),
+                                !.opn = Asc({VecIdx(i, n, iy) : i \in {j \in 1..n : ZMulOpen(b, x[j])}})]
+
+
 Case(f, n, v) == IF f \in CFns THEN CCase(f, n, v) ELSE IF f \in SFns THEN SCase(f, n, v)
-                 ELSE IF f \in PFns THEN PCase(f, n, v) ELSE RCase(f, n, v)
+                 ELSE IF f \in PFns THEN PCase(f, n, v) ELSE IF f \in ZFns THEN ZCase(f, n, v) ELSE RCase(f, n, v)
 
 \* every emitted complex division is exact
 CDivOK == c.f \in {"CDiv", "CDivTo"} => \A i \in 1..c.n : CDivExact(CDivX(c.n, c.v)[i], CDivY(c.n, c.v)[i])
